@@ -89,7 +89,7 @@ static void build_x86(int arch) {
   I("mov eax,0x12345678", 2, 0, 0, 0, false, Inst::kIdMov, eax, 0x12345678);
   I("long add ecx,1", 2, OPT(kLongForm), 0, 0, false, Inst::kIdAdd, ecx, 1);
   I("xacquire lock add [zbx],eax", 2, OPT(kX86_XAcquire) | OPT(kX86_Lock), 0, 0, false, Inst::kIdAdd, dword_ptr(zbx), eax);
-  I("xrelease mov [zbx],eax", 2, OPT(kX86_XRelease), 0, 0, false, Inst::kIdMov, dword_ptr(zbx), eax);
+  I("xrelease lock sub [zbx],eax", 2, OPT(kX86_XRelease) | OPT(kX86_Lock), 0, 0, false, Inst::kIdSub, dword_ptr(zbx), eax);
   I("rep movs byte", 2, OPT(kX86_Rep), 3, 0, true, Inst::kIdMovs, byte_ptr(zdi), byte_ptr(zsi));
   I("repne scas al", 2, OPT(kX86_Repne), 3, 0, false, Inst::kIdScas, al, byte_ptr(zdi));
   if (is64) {
@@ -499,9 +499,11 @@ static void run_x(int arch, int cfg, bool compiler, const std::vector<Step>& tr,
   apply_cfg(b, cfg, true);
   if (!setup_labels(b, *out.H)) { fprintf(stderr, "c08: label setup failed\n"); exit(2); }
   std::vector<BaseNode*> stash;
+  auto is_cyclic = [&]() { int hops = 0; for (BaseNode* n = b->first_node(); n && hops <= 8192; n = n->next()) hops++; return hops > 8192; };
   for (size_t i = 0; i < tr.size(); i++) {
     const Step& st = tr[i];
     Error e = Error::kOk;
+    if (is_cyclic()) { out.cyclic = true; return; }   // section() and the passes walk the list to its end
     switch (st.type) {
       case O_CUR_FIRST: b->set_cursor(b->first_node()); break;
       case O_CUR_LAST: b->set_cursor(b->last_node()); break;
@@ -540,7 +542,7 @@ static void run_x(int arch, int cfg, bool compiler, const std::vector<Step>& tr,
     }
   }
   // a cyclic node list cannot be finalized (the passes of a Compiler walk it to the end): detect instead of hanging
-  { int hops = 0; for (BaseNode* n = b->first_node(); n && hops <= 8192; n = n->next()) hops++; if (hops > 8192) { out.cyclic = true; return; } }
+  if (is_cyclic()) { out.cyclic = true; return; }
   out.fin = b->finalize();
   take_snap(out.H->code, out.snap);
 }
@@ -631,20 +633,25 @@ static CaseResult evaluate(int arch, int cfg, const std::vector<int>& hist) {
       continue;
     }
     // all calls accepted
-    if (have_lit) {
+    if (have_lit && !m.has_section) {
       if (lit.err != X.fin) return fail(std::string("error-differs:asm=") + errname(lit.err) + ":bld=" + errname(X.fin), std::string("assembler: ") + (lit.err == Error::kOk ? "no error" : errname(lit.err)) + (lit.idx >= 0 ? " at call " + std::to_string(lit.idx) : std::string()) + ", finalize(): " + errname(X.fin), comp);
-      if (!m.has_section) { clause = diff_snap(lit.snap, X.snap, detail); if (!clause.empty()) return fail(clause, detail, comp); }
-      else {
-        if (!m.invalid) {
-          RefOut& lin = need_lin(false);
-          if (lin.err != X.fin) return fail(std::string("error-differs:asm=") + errname(lin.err) + ":bld=" + errname(X.fin), "finalize() result differs from assembling the node sequence", comp);
-          clause = diff_snap(lin.snap, X.snap, detail); if (!clause.empty()) return fail(clause, detail + " (reference: calls in node order)", comp);
-        }
-        if (lit.err == Error::kOk) {
-          if (!have_lit_r) { take_rsnap(lit.H->code, lit_r); have_lit_r = true; }
-          RSnap xr; take_rsnap(X.H->code, xr);
-          clause = diff_rsnap(lit_r, xr, detail); if (!clause.empty()) return fail(clause, detail + " (reference: calls in call order, after flatten/resolve/relocate)", comp);
-        }
+      clause = diff_snap(lit.snap, X.snap, detail); if (!clause.empty()) return fail(clause, detail, comp);
+    } else if (have_lit) {
+      // section switches: the node order (all of section A, then all of section B) legitimately differs from the call order
+      bool order_artefact = false;
+      if (!m.invalid) {
+        RefOut& lin = need_lin(false);
+        if (lin.err != X.fin) return fail(std::string("error-differs:asm=") + errname(lin.err) + ":bld=" + errname(X.fin), "finalize() result differs from assembling the node sequence", comp);
+        clause = diff_snap(lin.snap, X.snap, detail); if (!clause.empty()) return fail(clause, detail + " (reference: calls in node order)", comp);
+        // an error that exists only in one of the two orders (e.g. a delta that is computed immediately in one order and
+        // deferred to relocation in the other) is not a property of the builder
+        if (lin.err != lit.err) { order_artefact = true; vh::ctx().n("order_dependent_error_cases")++; }
+      }
+      if (!order_artefact && lit.err != X.fin) return fail(std::string("error-differs:asm=") + errname(lit.err) + ":bld=" + errname(X.fin), std::string("assembler (call order): ") + errname(lit.err) + ", finalize(): " + errname(X.fin), comp);
+      if (lit.err == Error::kOk && X.fin == Error::kOk) {
+        if (!have_lit_r) { take_rsnap(lit.H->code, lit_r); have_lit_r = true; }
+        RSnap xr; take_rsnap(X.H->code, xr);
+        clause = diff_rsnap(lit_r, xr, detail); if (!clause.empty()) return fail(clause, detail + " (reference: calls in call order, after flatten/resolve/relocate)", comp);
       }
     } else {
       RefOut& lin = need_lin(false);
@@ -729,7 +736,7 @@ static void explore(int arch, int cfg, std::vector<int>& h, size_t base_len, con
   int rel = int(h.size() - base_len);
   bool counted = rel >= 2 ? true : c.shard_i == 0;
   Verdict v;
-  if (counted) { v = run_case(arch, cfg, h, true); if (v != V_NA) { L.cases++; if (rel >= 3 || depth < 3) c.sample(std::string(arch_name(arch)) + " cfg" + std::to_string(cfg) + ": " + hist_names(arch, h), 10); } }
+  if (counted) { v = run_case(arch, cfg, h, rel > 0 || base_len == 0); if (v != V_NA) { L.cases++; if (rel >= 3 || depth < 3) c.sample(std::string(arch_name(arch)) + " cfg" + std::to_string(cfg) + ": " + hist_names(arch, h), 10); } }
   else { CaseResult r = evaluate_guarded(arch, cfg, h); v = r.v; }
   if ((L.cases & 255) == 0 && c.out_of_time()) return;
   if (v == V_NA || v == V_VIOLATION || v == V_TERMINAL) { if (v != V_NA) L.pruned++; return; }
